@@ -1,5 +1,5 @@
 (* FmtPS/ProofsDEB.v — lemmas about the Debian (ar) half of FmtPS/Model.v. *)
-From Relic Require Import Base.Prelude Base.Enc Generated.FmtPS_gen FmtPS.Model FmtPS.Lib Laws.Pipeline.
+From Relic Require Import Base.Prelude Base.Enc Generated.FmtPS_gen FmtPS.Model FmtPS.Lib FmtPS.ProofsAR Laws.Pipeline.
 
 (* ================================================================== small facts *)
 Lemma andb3 a b c : a && b && c = true -> a = true /\ b = true /\ c = true.
@@ -68,7 +68,8 @@ Qed.
 
 (* ================================================================== entries, as relic's reader sees them *)
 Definition enc_all (es : list ent) : bytes := concat (map ent_enc es).
-Definition mem_of (pos : Z) (e : ent) : member := mkMember (ent_name e) (zlen (e_data e)) (e_data e) pos.
+(* on names without a slash (the domain of this file) Sign's normalised name is the name itself: m_cname = m_name *)
+Definition mem_of (pos : Z) (e : ent) : member := mkMember (ent_name e) (zlen (e_data e)) (e_data e) pos (ent_name e).
 Fixpoint mems (pos : Z) (es : list ent) : list member :=
   match es with [] => [] | e :: r => mem_of pos e :: mems (pos + zlen (ent_enc e)) r end.
 Definition ent_good (e : ent) : Prop := ent_ok e = true /\ ent_name_ok e = true /\ ent_mode_ok e = true.
@@ -118,6 +119,8 @@ Proof.
 Qed.
 
 (* the name field *)
+Lemma if_same {A} (b : bool) (x : A) : (if b then x else x) = x.
+Proof. destruct b; reflexivity. Qed.
 Lemma name_field_relic e : ent_name_ok e = true -> ar_trim (zslice 0 16 (e_hdr e)) = ent_name e /\ has_slash (ent_name e) = false.
 Proof.
   unfold ent_name_ok, ent_name. intros H. apply andb_true_iff in H as [H1 H2]. split.
@@ -129,6 +132,11 @@ Qed.
 Lemma gpg_flag (verify : bool) n : (if verify then deb_v_is_gpg n else deb_is_gpg n) = has_prefix n spec_gpg.
 Proof. destruct verify; reflexivity. Qed.
 
+Lemma name_field_norm e : ent_name_ok e = true -> deb_norm (ent_name e) = ent_name e.
+Proof.
+  intros H. destruct (name_field_relic e H) as [Hn Hs]. apply deb_norm_noslash; [exact Hs|]. rewrite <- Hn.
+  unfold ent_name_ok in H. apply andb_true_iff in H as [_ H]. destruct (zslice 0 16 (e_hdr e)); [discriminate|]. cbn [ar_trim]. discriminate.
+Qed.
 (* one member *)
 Lemma scan_step fuel verify chk pos e rest : ent_good e ->
   ar_scan (S fuel) verify chk pos (ent_enc e ++ rest) =
@@ -149,7 +157,7 @@ Proof.
   replace (60 + n + n mod 2 + zlen rest =? 0) with false by lia.
   replace (60 + n + n mod 2 + zlen rest <? 60) with false by lia.
   unfold ent_mode_ok in Hmode. replace (zlen (ar_trim (zslice 40 48 (e_hdr e))) <? 3) with false by lia.
-  rewrite Hn, Hslash, andb_false_r, gpg_flag, Hsz. fold (ent_is_sig e).
+  rewrite Hn, (name_field_norm e Hname), if_same, gpg_flag, Hsz. fold (ent_is_sig e).
   rewrite size_field_relic by lia. fold n. replace (n <? 0) with false by lia.
   assert (ztake n (e_data e ++ padb ++ rest) = e_data e) as -> by (unfold n; apply ztake_app_exact).
   destruct (negb (ent_is_sig e) && negb (chk (ent_name e) (e_data e))); [reflexivity|].
@@ -281,23 +289,23 @@ Proof.
   - now rewrite (replace_last_none p new b Hb), Hx.
   - now rewrite IH.
 Qed.
-Lemma slot_fold filename : forall ms acc, Forall (fun m => deb_is_slot (m_name m) filename = false) ms ->
-  fold_left (fun acc m => if deb_is_slot (m_name m) filename then Some m else acc) ms acc = acc.
+Lemma slot_fold filename : forall ms acc, Forall (fun m => deb_slot_hit filename m = false) ms ->
+  fold_left (fun acc m => if deb_slot_hit filename m then Some m else acc) ms acc = acc.
 Proof. induction ms as [|m ms IH]; intros acc H; [reflexivity|]. inversion H as [|? ? Hm Hms]; subst. cbn [fold_left]. rewrite Hm. now apply IH. Qed.
-Lemma mems_forall (P : bytes -> Prop) : forall es pos, Forall (fun e => P (ent_name e)) es -> Forall (fun m => P (m_name m)) (mems pos es).
+Lemma mems_forall (P : bytes -> Prop) : forall es pos, Forall (fun e => P (ent_name e)) es -> Forall (fun m => P (m_cname m)) (mems pos es).
 Proof. induction es as [|e es IH]; intros pos H; [constructor|]. inversion H; subst. cbn [mems]. constructor; auto. Qed.
 
 Lemma deb_slot_none role es pos : Forall (fun e => is_slot role e = false) es -> deb_slot (deb_filename role) (mems pos es) = None.
 Proof.
   intros H. unfold deb_slot. apply slot_fold.
-  apply (mems_forall (fun n => deb_is_slot n (deb_filename role) = false)). exact H.
+  apply (mems_forall (fun n => (deb_slot_before_skip || negb (deb_is_gpg n)) && deb_is_slot n (deb_filename role) = false)). exact H.
 Qed.
 Lemma deb_slot_some role a x b pos : is_slot role x = true -> Forall (fun e => is_slot role e = false) b ->
   deb_slot (deb_filename role) (mems pos (a ++ x :: b)) = Some (mem_of (pos + zlen (enc_all a)) x).
 Proof.
   intros Hx Hb. unfold deb_slot. rewrite mems_app, fold_left_app. cbn [mems fold_left].
-  change (deb_is_slot (m_name (mem_of (pos + zlen (enc_all a)) x)) (deb_filename role)) with (is_slot role x). rewrite Hx.
-  apply slot_fold. apply (mems_forall (fun n => deb_is_slot n (deb_filename role) = false)). exact Hb.
+  change (deb_slot_hit (deb_filename role) (mem_of (pos + zlen (enc_all a)) x)) with (is_slot role x). rewrite Hx.
+  apply slot_fold. apply (mems_forall (fun n => (deb_slot_before_skip || negb (deb_is_gpg n)) && deb_is_slot n (deb_filename role) = false)). exact Hb.
 Qed.
 
 (* ================================================================== the member written by relic *)
@@ -370,17 +378,17 @@ Definition ent_ser (e : ent) : bytes :=
   pad_sp 16 (ent_name e) ++ be_enc 8 (zlen (e_data e)) ++ be_enc 8 (zlen (e_data e)) ++ e_data e.
 
 Lemma signed_mems_control : forall es pos,
-  existsb (fun m => deb_is_control (m_name m)) (deb_signed_members (mems pos es)) = has_control es.
+  existsb (fun m => deb_is_control (m_cname m)) (deb_signed_members (mems pos es)) = has_control es.
 Proof.
   induction es as [|e es IH]; intros pos; [reflexivity|]. unfold deb_signed_members, has_control in *. cbn [mems filter].
-  change (deb_is_gpg (m_name (mem_of pos e))) with (ent_is_sig e). unfold nonsig at 1.
+  change (deb_is_gpg (m_cname (mem_of pos e))) with (ent_is_sig e). unfold nonsig at 1.
   destruct (ent_is_sig e); cbn [negb existsb]; [apply IH|]. now rewrite IH.
 Qed.
 Lemma signed_mems_ser : forall es pos,
   ser_members (deb_signed_members (mems pos es)) = concat (map ent_ser (filter nonsig es)).
 Proof.
   induction es as [|e es IH]; intros pos; [reflexivity|]. unfold deb_signed_members, ser_members in *. cbn [mems filter].
-  change (deb_is_gpg (m_name (mem_of pos e))) with (ent_is_sig e). unfold nonsig at 1.
+  change (deb_is_gpg (m_cname (mem_of pos e))) with (ent_is_sig e). unfold nonsig at 1.
   destruct (ent_is_sig e); cbn [negb map concat]; [apply IH|]. now rewrite IH.
 Qed.
 Lemma deb_scan_spec ctl es : Forall ent_good es ->
@@ -531,7 +539,8 @@ Definition deb_format (ctl : bytes -> bytes -> bool) (role : bytes) (mtime : Z) 
 Lemma deb_hashin_spec ctl es : Forall ent_good es -> chk_all (deb_chk ctl) es = true -> has_control es = true ->
   deb_hashin ctl (ar_spec_file es) = Ok (concat (map ent_ser (filter nonsig es))).
 Proof.
-  intros Hg Hc Hh. unfold deb_hashin. rewrite deb_scan_spec, Hc, Hh by assumption. cbn [bind ds_members]. now rewrite signed_mems_ser.
+  intros Hg Hc Hh. unfold deb_hashin. rewrite deb_scan_spec, Hc, Hh by assumption. cbn [bind ds_members].
+  change (deb_listed_members (mems 8 es)) with (deb_signed_members (mems 8 es)). now rewrite signed_mems_ser.
 Qed.
 Theorem deb_law_hashin ctl role mtime : law_hashin _ (deb_format ctl role mtime).
 Proof.
@@ -825,9 +834,11 @@ Qed.
 Lemma signed_mems_nd : forall es pos, map (fun m => (m_name m, m_data m)) (deb_signed_members (mems pos es)) = map (fun e => (ent_name e, e_data e)) (filter nonsig es).
 Proof.
   induction es as [|e es IH]; intros pos; [reflexivity|]. unfold deb_signed_members in *. cbn [mems filter].
-  change (deb_is_gpg (m_name (mem_of pos e))) with (ent_is_sig e). unfold nonsig at 1.
+  change (deb_is_gpg (m_cname (mem_of pos e))) with (ent_is_sig e). unfold nonsig at 1.
   destruct (ent_is_sig e); cbn [negb map]; [apply IH|]. now rewrite IH.
 Qed.
+Lemma vfilter_mems : forall es pos, filter (fun m => negb (deb_v_is_gpg (m_name m))) (mems pos es) = deb_signed_members (mems pos es).
+Proof. induction es as [|e es IH]; intros pos; [reflexivity|]. unfold deb_signed_members in *. cbn [mems filter]. now rewrite IH. Qed.
 Lemma deb_vmembers_spec es : Forall ent_good es ->
   deb_vmembers (ar_spec_file es) = Ok (filter (fun m => negb (deb_v_is_gpg (m_name m))) (mems 8 es)).
 Proof. intros Hg. unfold deb_vmembers. rewrite members_spec, chk_all_true by assumption. reflexivity. Qed.
@@ -838,7 +849,7 @@ Proof.
   intros He HD Hs Hv. destruct (deb_embed_form _ _ _ _ _ _ He) as [es E]. destruct E as [W _ -> Hg _ Hf].
   destruct W as [_ -> Wg Wd Wc Wh]. rewrite deb_scan_spec, Wc, Wh in Hs by assumption. injection Hs as <-.
   rewrite deb_vmembers_spec in Hv by assumption. injection Hv as <-. cbn [ds_members].
-  unfold deb_lines, deb_digests. change (filter (fun m => negb (deb_v_is_gpg (m_name m)))) with deb_signed_members.
+  unfold deb_lines, deb_digests. rewrite vfilter_mems.
   set (l := map (fun e => (ent_name e, e_data e)) (filter nonsig es)).
   match goal with |- deb_check ?A ?B = _ =>
     assert (A = map (fun nd => (D (snd nd), fst nd)) l) as EA by (unfold l; rewrite <- (signed_mems_nd es 8), map_map; reflexivity);
